@@ -775,6 +775,9 @@ func runC15(tier string, _ []string) int {
 			c.Sample(map[string]any{"target": targetKind, "nodes": len(order), "yaml": s})
 		}
 	})
+	if siotBin != "" {
+		_ = os.RemoveAll(filepath.Dir(siotBin)) // the tool built for this run
+	}
 	c.Require("nodes_compared", 50)
 	return c.Finish()
 }
